@@ -87,12 +87,20 @@ def _same_attrs(S, a, b):
     return ok
 
 
-def scaling(S, n, dim, nops):
-    """Scaling operations and revert."""
+def scaling(S, n, dim, nops, prescale='none'):
+    """Scaling operations and revert (optionally on a set that has already been scaled once)."""
     ML = _ml()
     ds, samples, labels = _make(S, n, dim)
     baseline = [list(r) for r in samples]  # samples before the first scaling since the last overriding rescale
     scaled_once = False
+    if prescale == 'range':
+        ds.scale_range((-1.0, 2.0))
+        scaled_once = True
+    elif prescale == 'factor':
+        fac0 = S.real('fac_pre')
+        S.assume(fac0 != 0)
+        ds.scale_factor(fac0)
+        scaled_once = True
     for step in range(nops):
         op = S.choice('op%d' % step, 5)
         if op == 0:  # scale_range
@@ -305,6 +313,10 @@ def jobs(tier):
             nops = (2 if (n <= 2 and dim == 1) else 1) if q else (3 if (n <= 2 and dim == 1) else 2)
             js.append(Job('scaling[n=%d,dim=%d,ops=%d]' % (n, dim, nops), scaling, {'n': n, 'dim': dim, 'nops': nops}, extra_shims=extra,
                           validate=(7 if q else 3), budget_s=(600 if q else 3000), timeout_ms=30000))
+            if n <= 2 and (dim == 1 or not q):
+                for prescale in ('range', 'factor'):
+                    js.append(Job('scaling[n=%d,dim=%d,ops=%d,pre=%s]' % (n, dim, 2, prescale), scaling, {'n': n, 'dim': dim, 'nops': 2, 'prescale': prescale},
+                                  extra_shims=extra, validate=(7 if q else 3), budget_s=(600 if q else 3000), timeout_ms=30000))
         for n in (0, 1, 2, 3):
             for prescale in ('none', 'range', 'factor'):
                 if n == 0 and prescale != 'none':
